@@ -65,7 +65,7 @@ def run(ctx):
         cp = [n for n in F.fns if re.search(r"Transition<" + re.escape(sm) + r"AccessControllerCreateProofStateMachineInput>>::transition$", n)]
         for c in cp[:1]:
             bc = ctx.body(c)
-            live = any("OperationRequiresUnlockedPrimaryRole" in v for x in ctx.bodies_of(c) for v in x.fn.vars)
+            live = any("OperationRequiresUnlockedPrimaryRole" in v for f_ in F.fns.values() if f_.mod == F.fns[c].mod for v in f_.vars)
             ctx.ob(f"{ver}|create-proof|locked-primary-rejected", live and bool(bc.ok_exits()), "create_proof transition can reject with OperationRequiresUnlockedPrimaryRole", bc.loc())
             # every proof of the controlled asset is created behind the `primary role is Unlocked` arm of the state match
             proofs = call_blocks(bc, r"::create_proof_of_(amount|non_fungibles|all)$|::create_proof\w*$")
